@@ -599,6 +599,30 @@ fn value_to_f64(value: &Value) -> Option<f64> {
     }
 }
 
+/// Compares an integer with a float by their exact values.
+///
+/// Converting the integer to `f64` first rounds it once it needs more than 53 bits:
+/// 2^53 + 1 would compare equal to the float 2^53.
+fn compare_int_float(i: i64, f: f64) -> Option<std::cmp::Ordering> {
+    use std::cmp::Ordering;
+    if f.is_nan() {
+        return None;
+    }
+    // 2^63 and -2^63 are exact floats: beyond them (infinities included) the float decides
+    if f >= 9_223_372_036_854_775_808.0 {
+        return Some(Ordering::Less);
+    }
+    if f < -9_223_372_036_854_775_808.0 {
+        return Some(Ordering::Greater);
+    }
+    // The integral part of `f` now fits an i64 exactly; its fraction breaks a tie
+    let whole = f.trunc();
+    match i.cmp(&(whole as i64)) {
+        Ordering::Equal => 0.0_f64.partial_cmp(&(f - whole)),
+        unequal => Some(unequal),
+    }
+}
+
 /// Compare two values.
 /// Supports RDF values stored as strings by attempting numeric parsing.
 ///
@@ -620,8 +644,8 @@ fn compare_values(a: &Value, b: &Value) -> Option<std::cmp::Ordering> {
             }
         }
         (Value::Bool(a), Value::Bool(b)) => Some(a.cmp(b)),
-        (Value::Int64(a), Value::Float64(b)) => (*a as f64).partial_cmp(b),
-        (Value::Float64(a), Value::Int64(b)) => a.partial_cmp(&(*b as f64)),
+        (Value::Int64(a), Value::Float64(b)) => compare_int_float(*a, *b),
+        (Value::Float64(a), Value::Int64(b)) => compare_int_float(*b, *a).map(Ordering::reverse),
         // String-to-numeric comparisons for RDF
         (Value::String(s), Value::Int64(i)) => match s.parse::<f64>() {
             Ok(num) => num.partial_cmp(&(*i as f64)),
@@ -1570,5 +1594,32 @@ mod tests {
             assert_eq!(result.column(0).unwrap().get_value(0), Some(one.clone()));
             assert_eq!(result.column(1).unwrap().get_value(0), Some(text.clone()));
         }
+    }
+
+    #[test]
+    fn test_min_max_compare_large_integers_with_floats_exactly() {
+        // 2^53 + 1 is not a float: converted, it would tie with the float 2^53
+        let int = Value::Int64((1i64 << 53) + 1);
+        let float = Value::Float64((1i64 << 53) as f64);
+        for input in [[int.clone(), float.clone()], [float.clone(), int.clone()]] {
+            let mock = MockOperator::new(vec![any_column_chunk(&input)]);
+            let mut agg = SimpleAggregateOperator::new(
+                Box::new(mock),
+                vec![AggregateExpr::min(0), AggregateExpr::max(0)],
+                vec![LogicalType::Any, LogicalType::Any],
+            );
+            let result = agg.next().unwrap().unwrap();
+            assert_eq!(result.column(0).unwrap().get_value(0), Some(float.clone()));
+            assert_eq!(result.column(1).unwrap().get_value(0), Some(int.clone()));
+        }
+
+        use std::cmp::Ordering;
+        assert_eq!(compare_int_float(3, 2.5), Some(Ordering::Greater));
+        assert_eq!(compare_int_float(-3, -2.5), Some(Ordering::Less));
+        assert_eq!(compare_int_float(0, -0.0), Some(Ordering::Equal));
+        assert_eq!(compare_int_float(i64::MAX, 9_223_372_036_854_775_808.0), Some(Ordering::Less));
+        assert_eq!(compare_int_float(i64::MIN, -9_223_372_036_854_775_808.0), Some(Ordering::Equal));
+        assert_eq!(compare_int_float(i64::MIN, f64::NEG_INFINITY), Some(Ordering::Greater));
+        assert_eq!(compare_int_float(1, f64::NAN), None);
     }
 }
